@@ -21,6 +21,8 @@ CONSTANTS
   XtModes,   \* subset of {"cell", "text", "none"}
   IoPx,      \* subset of BOOLEAN: does TIOCGWINSZ carry pixel sizes
   Ops,       \* subset of {"cell", "memo"}: which groups of operations are explored
+  Faults,    \* subset of {"kbd", "exc"}: exceptions (KeyboardInterrupt / an Exception subclass) that may be
+             \* raised out of a terminal query during a cache-miss look-up
   Variant    \* "code" or a seeded regression of the model
 
 Nil == <<>>
@@ -35,13 +37,20 @@ VARIABLES
   memo,     \* memo[k] \in {"miss", "real", "none"}: memo tables of the `cached` query functions
   bodies,   \* bodies[k]: body executions of memoized function k since its last invalidation
   basis,    \* history variable of the specification (TermCacheCore!BasisAfterGet)
-  out       \* last operation, arguments, result, number of query round trips it made
+  pend,     \* history variable: the facts ("cell" or a memo key) whose last look-up was cut short by an
+            \* exception and for which no look-up has completed (and no toggle has discarded them) since
+  out       \* last operation, arguments, result, number of query round trips it made;
+            \* fault = the exception raised out of the query ("" = none), aff = the operation looked up a
+            \* fact that was in `pend` (it ran After a Failed look-up of the same Fact)
 
-vars == <<env, swap, queries, cr, isSup, cache, memo, bodies, basis, out>>
-View == <<env, swap, queries, cr, isSup, cache, memo, bodies, basis>>
+vars == <<env, swap, queries, cr, isSup, cache, memo, bodies, basis, pend, out>>
+View == <<env, swap, queries, cr, isSup, cache, memo, bodies, basis, pend>>
 
 NoQ == [winops |-> 0, colors |-> 0, name |-> 0]
-Out(op, arg, res, q) == [op |-> op, arg |-> arg, res |-> res, q |-> q, err |-> FALSE]
+OutA(op, arg, res, q, aff) == [op |-> op, arg |-> arg, res |-> res, q |-> q, err |-> FALSE, fault |-> "", aff |-> aff]
+Out(op, arg, res, q) == OutA(op, arg, res, q, FALSE)
+\* the exception `f` propagated out of the operation: no result
+OutF(op, arg, q, f, aff) == [op |-> op, arg |-> arg, res |-> <<>>, q |-> q, err |-> TRUE, fault |-> f, aff |-> aff]
 
 -----------------------------------------------------------------------------
 (* the library's get_cell_size(): returns [cell, cache', asked] *)
@@ -68,6 +77,7 @@ Init ==
   /\ memo = [k \in MemoKeys |-> "miss"]
   /\ bodies = [k \in MemoKeys |-> 0]
   /\ basis = Nil
+  /\ pend = {}
   /\ out = Out("init", <<>>, <<>>, NoQ)
 
 (* ---- environment ---- *)
@@ -77,7 +87,7 @@ Resize ==
        /\ <<s, p>> # <<<<env.cols, env.rows>>, <<env.xpx, env.ypx>>>>
        /\ env' = [env EXCEPT !.cols = s[1], !.rows = s[2], !.xpx = p[1], !.ypx = p[2]]
        /\ out' = Out("Resize", <<s[1], s[2], p[1], p[2]>>, <<>>, NoQ)
-  /\ UNCHANGED <<swap, queries, cr, isSup, cache, memo, bodies, basis>>
+  /\ UNCHANGED <<swap, queries, cr, isSup, cache, memo, bodies, basis, pend>>
 
 (* ---- settings ---- *)
 EnableSwap ==
@@ -85,6 +95,7 @@ EnableSwap ==
   /\ swap' = TRUE
   /\ cache' = IF ~swap /\ Variant # "noswapclear" THEN Zero ELSE cache
   /\ basis' = IF ~swap THEN Nil ELSE basis
+  /\ pend' = IF ~swap THEN pend \ {"cell"} ELSE pend
   /\ out' = Out("EnableSwap", <<>>, <<>>, NoQ)
   /\ UNCHANGED <<env, queries, cr, isSup, memo, bodies>>
 
@@ -93,6 +104,7 @@ DisableSwap ==
   /\ swap' = FALSE
   /\ cache' = IF swap THEN Zero ELSE cache
   /\ basis' = IF swap THEN Nil ELSE basis
+  /\ pend' = IF swap THEN pend \ {"cell"} ELSE pend
   /\ out' = Out("DisableSwap", <<>>, <<>>, NoQ)
   /\ UNCHANGED <<env, queries, cr, isSup, memo, bodies>>
 
@@ -103,33 +115,36 @@ EnableQueries ==
             /\ bodies' = IF Variant = "noqueryinval" THEN [bodies EXCEPT !["name"] = 0] ELSE [k \in MemoKeys |-> 0]
             /\ cache' = IF Variant = "noquerycellclear" THEN cache ELSE Zero
             /\ basis' = Nil
-       ELSE UNCHANGED <<memo, bodies, cache, basis>>
+            /\ pend' = {}
+       ELSE UNCHANGED <<memo, bodies, cache, basis, pend>>
   /\ out' = Out("EnableQueries", <<>>, <<>>, NoQ)
   /\ UNCHANGED <<env, swap, cr, isSup>>
 
 DisableQueries ==
   /\ queries' = FALSE
   /\ out' = Out("DisableQueries", <<>>, <<>>, NoQ)
-  /\ UNCHANGED <<env, swap, cr, isSup, cache, memo, bodies, basis>>
+  /\ UNCHANGED <<env, swap, cr, isSup, cache, memo, bodies, basis, pend>>
 
 (* ---- cell size and ratio ---- *)
 GetCellSize ==
   /\ "cell" \in Ops
   /\ LET g == GetCell(cache) IN
        /\ cache' = g.cache
-       /\ out' = Out("GetCellSize", <<>>, g.cell, [NoQ EXCEPT !.winops = IF g.asked THEN 1 ELSE 0])
-  /\ basis' = BasisAfterGet(basis, env)
+       /\ out' = OutA("GetCellSize", <<>>, g.cell, [NoQ EXCEPT !.winops = IF g.asked THEN 1 ELSE 0], "cell" \in pend)
+  /\ basis' = BasisAfterLookup(basis, env, "cell" \in pend)
+  /\ pend' = pend \ {"cell"}
   /\ UNCHANGED <<env, swap, queries, cr, isSup, memo, bodies>>
 
 GetRatio ==
   /\ "cell" \in Ops
   /\ IF cr # Nil
        THEN /\ out' = Out("GetRatio", <<>>, cr, NoQ)
-            /\ UNCHANGED <<cache, basis>>
+            /\ UNCHANGED <<cache, basis, pend>>
        ELSE LET g == GetCell(cache) IN
             /\ cache' = g.cache
-            /\ basis' = BasisAfterGet(basis, env)
-            /\ out' = Out("GetRatio", <<>>, RatioOf(g.cell), [NoQ EXCEPT !.winops = IF g.asked THEN 1 ELSE 0])
+            /\ basis' = BasisAfterLookup(basis, env, "cell" \in pend)
+            /\ pend' = pend \ {"cell"}
+            /\ out' = OutA("GetRatio", <<>>, RatioOf(g.cell), [NoQ EXCEPT !.winops = IF g.asked THEN 1 ELSE 0], "cell" \in pend)
   /\ UNCHANGED <<env, swap, queries, cr, isSup, memo, bodies>>
 
 SetRatioFloat ==
@@ -137,7 +152,7 @@ SetRatioFloat ==
   /\ \E r \in Ratios :
        /\ cr' = r
        /\ out' = Out("SetRatio", r, <<>>, NoQ)
-  /\ UNCHANGED <<env, swap, queries, isSup, cache, memo, bodies, basis>>
+  /\ UNCHANGED <<env, swap, queries, isSup, cache, memo, bodies, basis, pend>>
 
 \* set_cell_ratio(AutoCellRatio.FIXED | DYNAMIC)
 SetRatioAuto ==
@@ -150,12 +165,15 @@ SetRatioAuto ==
            g2 == GetCell(c1)                           \* FIXED: the snapshot
            doFixed == sup = "yes" /\ m = "FIXED"
            nq == (IF a1 THEN 1 ELSE 0) + (IF doFixed /\ g2.asked THEN 1 ELSE 0)
+           looked == isSup = "unknown" \/ doFixed     \* get_cell_size() was called
        IN
        /\ isSup' = sup
        /\ cache' = IF doFixed THEN g2.cache ELSE c1
-       /\ basis' = IF isSup = "unknown" \/ doFixed THEN BasisAfterGet(basis, env) ELSE basis
+       /\ basis' = IF looked THEN BasisAfterLookup(basis, env, "cell" \in pend) ELSE basis
+       /\ pend' = IF looked THEN pend \ {"cell"} ELSE pend
        /\ cr' = IF sup = "no" THEN cr ELSE IF m = "FIXED" THEN RatioOf(g2.cell) ELSE Nil
-       /\ out' = [op |-> "SetRatio", arg |-> <<m>>, res |-> <<>>, q |-> [NoQ EXCEPT !.winops = nq], err |-> sup = "no"]
+       /\ out' = [op |-> "SetRatio", arg |-> <<m>>, res |-> <<>>, q |-> [NoQ EXCEPT !.winops = nq], err |-> sup = "no",
+                  fault |-> "", aff |-> looked /\ "cell" \in pend]
   /\ UNCHANGED <<env, swap, queries, memo, bodies>>
 
 (* ---- memoized query functions ---- *)
@@ -165,47 +183,101 @@ Memoized(k, op) ==
        THEN LET v == IF queries THEN "real" ELSE "none" IN
             /\ memo' = [memo EXCEPT ![k] = v]
             /\ bodies' = [bodies EXCEPT ![k] = @ + 1]
-            /\ out' = Out(op, <<k>>, <<v>>, [NoQ EXCEPT ![IF k = "name" THEN "name" ELSE "colors"] = IF queries THEN 1 ELSE 0])
-       ELSE /\ out' = Out(op, <<k>>, <<memo[k]>>, NoQ)
+            /\ out' = OutA(op, <<k>>, <<v>>, [NoQ EXCEPT ![IF k = "name" THEN "name" ELSE "colors"] = IF queries THEN 1 ELSE 0], k \in pend)
+       ELSE /\ out' = OutA(op, <<k>>, <<memo[k]>>, NoQ, k \in pend)
             /\ UNCHANGED <<memo, bodies>>
+  /\ pend' = pend \ {k}
   /\ UNCHANGED <<env, swap, queries, cr, isSup, cache, basis>>
 
 GetColors == \E k \in {"colors", "colorshex"} : Memoized(k, "GetColors")
 GetName == Memoized("name", "GetName")
 
+(* ---- faults: an exception (Ctrl-C => KeyboardInterrupt, termios.error, ...) is raised out of the   ---- *)
+(* ---- terminal query of a cache-miss look-up and propagates to the caller.  No look-up completed:   ---- *)
+(* ---- nothing is memoized, no setting changes; the history variable `basis` does not move either   ---- *)
+(* ---- (no determination took place).  The seeded regressions of the model leave an interim entry.  ---- *)
+W1 == [NoQ EXCEPT !.winops = 1]
+
+\* get_cell_size() / DYNAMIC get_cell_ratio(): the XTWINOPS query is cut short
+CellFault ==
+  /\ "cell" \in Ops
+  /\ GetCell(cache).asked
+  /\ \E f \in Faults, op \in {"GetCellSize", "GetRatio"} :
+       /\ op = "GetRatio" => cr = Nil
+       /\ out' = OutF(op, <<>>, W1, f, "cell" \in pend)
+  /\ cache' = IF Variant = "interimcell" THEN <<env.cols, env.rows, 0, 0>> ELSE cache
+  /\ pend' = pend \cup {"cell"}
+  /\ UNCHANGED <<env, swap, queries, cr, isSup, memo, bodies, basis>>
+
+\* set_cell_ratio(FIXED | DYNAMIC): the query of the one-time support check, or of the FIXED snapshot, is
+\* cut short: neither the support status nor the ratio changes
+SetRatioFault ==
+  /\ "cell" \in Ops
+  /\ GetCell(cache).asked
+  /\ \E f \in Faults, m \in {"FIXED", "DYNAMIC"} :
+       /\ isSup = "unknown" \/ (isSup = "yes" /\ m = "FIXED")
+       /\ out' = OutF("SetRatio", <<m>>, W1, f, "cell" \in pend)
+  /\ cache' = IF Variant = "interimcell" THEN <<env.cols, env.rows, 0, 0>> ELSE cache
+  /\ pend' = pend \cup {"cell"}
+  /\ UNCHANGED <<env, swap, queries, cr, isSup, memo, bodies, basis>>
+
+\* a memoized query function: the body raises (failed executions do not count for BodyOnce, as in Memo!BodyFail)
+MemoFault ==
+  /\ "memo" \in Ops
+  /\ queries
+  /\ \E f \in Faults, k \in MemoKeys :
+       /\ memo[k] = "miss"
+       /\ out' = OutF(IF k = "name" THEN "GetName" ELSE "GetColors", <<k>>,
+                      [NoQ EXCEPT ![IF k = "name" THEN "name" ELSE "colors"] = 1], f, k \in pend)
+       /\ memo' = IF Variant = "interimmemo" THEN [memo EXCEPT ![k] = "none"] ELSE memo
+       /\ pend' = pend \cup {k}
+  /\ UNCHANGED <<env, swap, queries, cr, isSup, cache, bodies, basis>>
+
 Next ==
   \/ Resize \/ EnableSwap \/ DisableSwap \/ EnableQueries \/ DisableQueries
   \/ SetRatioFloat \/ SetRatioAuto \/ GetCellSize \/ GetRatio \/ GetColors \/ GetName
+  \/ CellFault \/ SetRatioFault \/ MemoFault
 
 Spec == Init /\ [][Next]_vars
 
 -----------------------------------------------------------------------------
 (* Properties: no mention of `cache` / `memo` *)
 
-CellFresh ==
-  out.op = "GetCellSize" => out.res \in AllowedCells(basis, env, swap, queries)
+\* (each clause below is stated for an operation that returned; the same clause for an operation that
+\* ran after a failed look-up of the same fact - out.aff - is FaultFresh)
+CellOK == out.res \in AllowedCells(basis, env, swap, queries)
+RatioOK == \E a \in AllowedRatios(basis, env, swap, queries) : SameRatio(out.res, a)
+FixedOK == \E a \in AllowedRatios(basis, env, swap, queries) : SameRatio(cr, a)
+MemoOK == /\ (queries => out.res = <<"real">>)
+          /\ (out.res = <<"none">> => ~queries)
+Returned == ~out.err
+
+CellFresh == out.op = "GetCellSize" /\ Returned /\ ~out.aff => CellOK
 
 \* the DYNAMIC ratio follows the terminal; an explicit or FIXED ratio is what was set
-RatioFresh ==
-  out.op = "GetRatio" /\ cr = Nil =>
-    \E a \in AllowedRatios(basis, env, swap, queries) : SameRatio(out.res, a)
+RatioFresh == out.op = "GetRatio" /\ cr = Nil /\ Returned /\ ~out.aff => RatioOK
 
 \* FIXED takes its snapshot from the terminal as it is when set
-FixedSnapshot ==
-  out.op = "SetRatio" /\ out.arg = <<"FIXED">> /\ ~out.err =>
-    \E a \in AllowedRatios(basis, env, swap, queries) : SameRatio(cr, a)
+FixedSnapshot == out.op = "SetRatio" /\ out.arg = <<"FIXED">> /\ Returned /\ ~out.aff => FixedOK
 
 \* results obtained while queries were disabled are not returned once they are enabled again;
 \* and nothing but the terminal's own answer is ever reported as such
-MemoFresh ==
-  out.op \in {"GetColors", "GetName"} =>
-    /\ (queries => out.res = <<"real">>)
-    /\ (out.res = <<"none">> => ~queries)
+MemoFresh == out.op \in {"GetColors", "GetName"} /\ Returned /\ ~out.aff => MemoOK
+
+\* a look-up that was cut short by an exception leaves nothing behind: whatever is returned (or refused)
+\* afterwards is what a fresh computation gives for the current terminal and settings
+FaultFresh ==
+  out.aff =>
+    /\ (out.op = "GetCellSize" /\ Returned => CellOK)
+    /\ (out.op = "GetRatio" /\ cr = Nil /\ Returned => RatioOK)
+    /\ (out.op = "SetRatio" /\ out.arg = <<"FIXED">> /\ Returned => FixedOK)
+    /\ (out.op \in {"GetColors", "GetName"} /\ Returned => MemoOK)
 
 \* a memoized function runs its body at most once per argument tuple until invalidated
 BodyOnce == \A k \in MemoKeys : bodies[k] <= 1
 
 TypeOK ==
+  /\ pend \subseteq {"cell"} \cup MemoKeys
   /\ cache \in Seq(Nat) /\ Len(cache) = 4
   /\ isSup \in {"unknown", "yes", "no"}
   /\ \A k \in MemoKeys : memo[k] \in {"miss", "real", "none"}
